@@ -787,7 +787,7 @@ impl Prop for C14 {
     fn evidence(&self, tier: Tier) -> EvidenceSpec {
         EvidenceSpec {
             level: "exploration",
-            rule: "in-process, in isolated workers with a 16 MiB stack: every string up to the C09 bounds through tokenize+parse (and type_check when they parse); every token sequence up to length 4/5 over all 29 token symbols (28 kinds + line-break terminator, so also streams tokenize never emits) and of length 5/6 over a 21-symbol class alphabet through parse; every sentence of grammar.y up to 5/7 tokens (class alphabet) with every single-token deletion, substitution (29 kinds) and insertion (29 kinds at every position), and the same edits of every sentence of six sub-grammar slices (binders, definition groups, groups in binder domains to 9/11 tokens, conditionals with groups to 9/10, arithmetic and applications to 7/8), where an edit leaves a recovered error deep inside an otherwise complete tree; 624 programs in which the checker has to quote a compound operand (26 operand shapes: applications with parenthesised arguments in every position, operator chains with grouped operands, negations, conditionals, groups; in 8 contexts that reject an integer there; 3 layouts); 512 programs in which two indexes of an opaque type family are closed arithmetic that the checker has to normalise (divisions by zero, truncating division of negatives, 40-digit products); 258 programs whose annotations and codomains are types only after unfolding definitions. Each stage must return Ok or a non-empty error list, never panic, never abort, never exceed the watchdog. Process level: the real `gram check` binary on every byte string of length <= 1, every pair over a byte class alphabet (quick) / all 65536 pairs (thorough), the examples and single-byte invalid-UTF-8 mutations of them, an empty file, a missing file and a directory: exit 0 with output and no stderr, or exit 1 with no output and an [Error] diagnostic; and the verdict must agree with the in-process pipeline; for accepted files (the examples, members of the alias and nested-group families, dependent-type programs) the standard output of `gram check` and of `gram run` must be, byte for byte, the elaborated term and type / the value that the in-process pipeline computes, in the format of main.rs. non-trivial = inputs that reach name resolution or beyond, and launches that satisfied the contract".to_owned(),
+            rule: "in-process, in isolated workers with a 16 MiB stack: every string up to the C09 bounds through tokenize+parse (and type_check when they parse); every token sequence up to length 4/5 over all 29 token symbols (28 kinds + line-break terminator, so also streams tokenize never emits) and of length 5/6 over a 21-symbol class alphabet through parse; every sentence of grammar.y up to 5/7 tokens (class alphabet) with every single-token deletion, substitution (29 kinds) and insertion (29 kinds at every position), and the same edits of every sentence of six sub-grammar slices (binders, definition groups, groups in binder domains to 9/11 tokens, conditionals with groups to 9/10, arithmetic and applications to 7/8), where an edit leaves a recovered error deep inside an otherwise complete tree; 624 programs in which the checker has to quote a compound operand (26 operand shapes: applications with parenthesised arguments in every position, operator chains with grouped operands, negations, conditionals, groups; in 8 contexts that reject an integer there; 3 layouts); 512 programs in which two indexes of an opaque type family are closed arithmetic that the checker has to normalise (divisions by zero, truncating division of negatives, 40-digit products); 258 programs whose annotations and codomains are types only after unfolding definitions; definitions that contain holes and are used by name (t = H for seven H, five group layouts, twelve bodies, two layouts) together with the late-hole and value-boundary families. Each stage must return Ok or a non-empty error list, never panic, never abort, never exceed the watchdog; for an accepted program, printing the elaborated term and its type (as gram check does) is a stage too. Process level: the real `gram check` binary on every byte string of length <= 1, every pair over a byte class alphabet (quick) / all 65536 pairs (thorough), the examples and single-byte invalid-UTF-8 mutations of them, an empty file, a missing file and a directory: exit 0 with output and no stderr, or exit 1 with no output and an [Error] diagnostic; and the verdict must agree with the in-process pipeline; for accepted files (the examples, members of the alias and nested-group families, dependent-type programs) the standard output of `gram check` and of `gram run` must be, byte for byte, the elaborated term and type / the value that the in-process pipeline computes, in the format of main.rs (a program whose evaluation stops on a division by zero: exit 1, nothing on stdout, a message on stderr). Every file is also given to `gram run FILE` and `gram FILE`: the two must agree byte for byte, and a file that `gram check` rejects must be rejected by them with the same stderr; for a rejected file (a sample of the multi-diagnostic family of C13 included) every diagnostic of the in-process pipeline, rendered with the path as error::throw does, must be on stderr, whole and in order. non-trivial = inputs that reach name resolution or beyond, and launches that satisfied the contract".to_owned(),
             assumptions: vec![
                 "token sequences that parse are also type checked in-process unless the reference finds a divergent piece in them (counted as skipped_divergent); an abnormal ending after that pre-screen is a violation".to_owned(),
                 "NO_COLOR=1 (as the repository's CI)".to_owned(),
